@@ -1,10 +1,10 @@
 package sym
 
 import (
-	"math"
 	"encoding/json"
 	"fmt"
 	"go/types"
+	"math"
 	"strconv"
 	"strings"
 	"unicode/utf8"
@@ -132,36 +132,42 @@ var intrinsicTable map[string]Intrinsic
 
 func init() {
 	intrinsicTable = map[string]Intrinsic{
-		"strings.Index":                    inIndex,
-		"bytes.Index":                      inIndex,
-		"internal/bytealg.Index":           inIndex,
-		"internal/bytealg.IndexString":     inIndex,
-		"internal/stringslite.Index":       inIndex,
-		"strings.Contains":                 inContains,
-		"bytes.Contains":                   inContains,
-		"strings.IndexByte":                inIndexByte,
-		"bytes.IndexByte":                  inIndexByte,
-		"internal/bytealg.IndexByte":       inIndexByte,
-		"internal/bytealg.IndexByteString": inIndexByte,
-		"internal/stringslite.IndexByte":   inIndexByte,
-		"strings.LastIndexByte":            inLastIndexByte,
-		"bytes.LastIndexByte":              inLastIndexByte,
-		"internal/bytealg.LastIndexByte":   inLastIndexByte,
+		"strings.Index":                        inIndex,
+		"bytes.Index":                          inIndex,
+		"internal/bytealg.Index":               inIndex,
+		"internal/bytealg.IndexString":         inIndex,
+		"internal/stringslite.Index":           inIndex,
+		"strings.Contains":                     inContains,
+		"bytes.Contains":                       inContains,
+		"strings.IndexByte":                    inIndexByte,
+		"bytes.IndexByte":                      inIndexByte,
+		"internal/bytealg.IndexByte":           inIndexByte,
+		"internal/bytealg.IndexByteString":     inIndexByte,
+		"internal/stringslite.IndexByte":       inIndexByte,
+		"strings.LastIndexByte":                inLastIndexByte,
+		"bytes.LastIndexByte":                  inLastIndexByte,
+		"internal/bytealg.LastIndexByte":       inLastIndexByte,
 		"internal/bytealg.LastIndexByteString": inLastIndexByte,
-		"strings.Count":                    inCount,
-		"bytes.Count":                      inCount,
-		"internal/bytealg.Count":           inCountByte,
-		"internal/bytealg.CountString":     inCountByte,
-		"bytes.Equal":                      inBytesEqual,
-		"internal/bytealg.Equal":           inBytesEqual,
+		"strings.Count":                        inCount,
+		"bytes.Count":                          inCount,
+		"internal/bytealg.Count":               inCountByte,
+		"internal/bytealg.CountString":         inCountByte,
+		"bytes.Equal":                          inBytesEqual,
+		"internal/bytealg.Equal":               inBytesEqual,
 		// math on concrete floats (the schema library's number constraints); math's own init needs internal/cpu
-		"math.Min":   func(ex *Exec, fr *frame, args []Val) Val { return FloatV(math.Min(float64(args[0].(FloatV)), float64(args[1].(FloatV)))) },
-		"math.Max":   func(ex *Exec, fr *frame, args []Val) Val { return FloatV(math.Max(float64(args[0].(FloatV)), float64(args[1].(FloatV)))) },
+		"math.Min": func(ex *Exec, fr *frame, args []Val) Val {
+			return FloatV(math.Min(float64(args[0].(FloatV)), float64(args[1].(FloatV))))
+		},
+		"math.Max": func(ex *Exec, fr *frame, args []Val) Val {
+			return FloatV(math.Max(float64(args[0].(FloatV)), float64(args[1].(FloatV))))
+		},
 		"math.Floor": func(ex *Exec, fr *frame, args []Val) Val { return FloatV(math.Floor(float64(args[0].(FloatV)))) },
 		"math.Ceil":  func(ex *Exec, fr *frame, args []Val) Val { return FloatV(math.Ceil(float64(args[0].(FloatV)))) },
 		"math.Trunc": func(ex *Exec, fr *frame, args []Val) Val { return FloatV(math.Trunc(float64(args[0].(FloatV)))) },
 		"math.Abs":   func(ex *Exec, fr *frame, args []Val) Val { return FloatV(math.Abs(float64(args[0].(FloatV)))) },
-		"math.Pow":   func(ex *Exec, fr *frame, args []Val) Val { return FloatV(math.Pow(float64(args[0].(FloatV)), float64(args[1].(FloatV)))) },
+		"math.Pow": func(ex *Exec, fr *frame, args []Val) Val {
+			return FloatV(math.Pow(float64(args[0].(FloatV)), float64(args[1].(FloatV))))
+		},
 		"math.Log10": func(ex *Exec, fr *frame, args []Val) Val { return FloatV(math.Log10(float64(args[0].(FloatV)))) },
 		"math.IsNaN": func(ex *Exec, fr *frame, args []Val) Val { return Bool(math.IsNaN(float64(args[0].(FloatV)))) },
 		"math.IsInf": func(ex *Exec, fr *frame, args []Val) Val {
@@ -211,6 +217,7 @@ func init() {
 			}
 			return SliceV{A: cells}
 		},
+		"fmt.Fprintf":                    inFprintf,
 		"(*strings.Builder).WriteString": inBuilderWriteString,
 		"(*strings.Builder).Write":       inBuilderWriteString,
 		"(*strings.Builder).WriteByte":   inBuilderWriteByte,
@@ -225,11 +232,11 @@ func init() {
 		},
 		"strings.Clone":              func(ex *Exec, fr *frame, args []Val) Val { return args[0] },
 		"internal/stringslite.Clone": func(ex *Exec, fr *frame, args []Val) Val { return args[0] },
-		"fmt.Sprintf": inSprintf,
-		"fmt.Errorf":  inErrorf,
-		"fmt.Sprint":  inSprint,
-		"errors.Is":   inErrorsIs,
-		"errors.As":   inErrorsAs,
+		"fmt.Sprintf":                inSprintf,
+		"fmt.Errorf":                 inErrorf,
+		"fmt.Sprint":                 inSprint,
+		"errors.Is":                  inErrorsIs,
+		"errors.As":                  inErrorsAs,
 
 		"(*sync.Mutex).Lock":      func(ex *Exec, fr *frame, args []Val) Val { ex.lockOp(args[0], "Lock"); return nil },
 		"(*sync.Mutex).Unlock":    func(ex *Exec, fr *frame, args []Val) Val { ex.lockOp(args[0], "Unlock"); return nil },
@@ -491,13 +498,7 @@ func inBuilderWriteRune(ex *Exec, fr *frame, args []Val) Val {
 	if r.IsConst() {
 		s = mkStr(string(rune(r.Signed())))
 	} else {
-		small := Cmp(OpULt, Resize(r, 64, false), Const(64, 0x80))
-		if ex.branch(small) {
-			s = Str{Resize(r, 8, false)}
-		} else {
-			v := ex.concretize(r, "WriteRune")
-			s = mkStr(string(rune(signExt(v, 32))))
-		}
+		s = ex.encodeRuneSym(r)
 	}
 	b, buf := builderBuf(ex, args)
 	cells := append([]Val(nil), buf.A...)
@@ -604,15 +605,43 @@ func (ex *Exec) formatTyped(fr *frame, t types.Type, v Val, verb byte) Str {
 			}
 			return Str{byteConsts['\''], Resize(v, 8, false), byteConsts['\'']}
 		}
+		if (verb == 'x' || verb == 'X') && !v.IsConst() && (!signed || ex.branch(Cmp(OpSLe, Const(w, 0), v))) {
+			// hexadecimal digits of a symbolic value: fork on the number of digits only, each digit is a
+			// table look-up on its nibble
+			digits := "0123456789abcdef"
+			if verb == 'X' {
+				digits = "0123456789ABCDEF"
+			}
+			v64 := Resize(v, 64, false)
+			n := 1
+			for ; n < int(w)/4; n++ {
+				if ex.branch(Cmp(OpULt, v64, Const(64, uint64(1)<<(4*uint(n))))) {
+					break
+				}
+			}
+			out := make(Str, 0, n)
+			for k := n - 1; k >= 0; k-- {
+				nib := Resize(Bin(OpLShr, v64, Const(64, uint64(4*k))), 8, false)
+				nib = Bin(OpBAnd, nib, Const(8, 15))
+				out = append(out, ex.strIndex(mkStr(digits), Resize(nib, 64, false)).(*Term))
+			}
+			return out
+		}
 		val := ex.concretize(v, "formatted integer")
 		base := 10
-		if verb == 'x' {
+		if verb == 'x' || verb == 'X' {
 			base = 16
 		}
+		var txt string
 		if signed {
-			return mkStr(strconv.FormatInt(signExt(val, w), base))
+			txt = strconv.FormatInt(signExt(val, w), base)
+		} else {
+			txt = strconv.FormatUint(val, base)
 		}
-		return mkStr(strconv.FormatUint(val, base))
+		if verb == 'X' {
+			txt = strings.ToUpper(txt)
+		}
+		return mkStr(txt)
 	case *Val:
 		if v == nil {
 			return mkStr("<nil>")
@@ -640,10 +669,31 @@ func (ex *Exec) sprintf(fr *frame, format Str, args []Val) Str {
 			out = append(out, mkStr("%!(NOVERB)")...)
 			break
 		}
-		// flags (ignored except '#')
+		// flags and width: '0' and a width are honoured for integers and strings; '#' is accepted for %v
+		// (used in messages of unreachable branches only); anything else is outside the encoding
+		flagStart := i
 		for i < len(f) && strings.IndexByte("+-# 0123456789.", f[i]) >= 0 {
 			i++
 		}
+		if i >= len(f) {
+			out = append(out, mkStr("%!(NOVERB)")...)
+			break
+		}
+		flags := f[flagStart:i]
+		zeroPad := false
+		width := 0
+		for k := 0; k < len(flags); k++ {
+			switch c := flags[k]; {
+			case c == '0' && width == 0:
+				zeroPad = true
+			case c >= '0' && c <= '9':
+				width = width*10 + int(c-'0')
+			case c == '#':
+			default:
+				panic(inconclusive{"Sprintf flag " + string(c) + " unsupported"})
+			}
+		}
+		padFrom := len(out)
 		verb := f[i]
 		if verb == '%' {
 			out = append(out, byteConsts['%'])
@@ -655,79 +705,94 @@ func (ex *Exec) sprintf(fr *frame, format Str, args []Val) Str {
 		}
 		a := args[ai]
 		ai++
-		switch verb {
-		case 's', 'v', 'd', 'q', 'c', 'x', 'w', 'T':
-			if verb == 'w' {
-				verb = 'v'
-			}
-			if verb == 'T' {
-				if itf, ok := a.(Iface); ok && itf.T != nil {
-					out = append(out, mkStr(itf.T.String())...)
-				} else {
-					out = append(out, mkStr("<nil>")...)
+		func() {
+			switch verb {
+			case 's', 'v', 'd', 'q', 'c', 'x', 'X', 'w', 'T':
+				if verb == 'w' {
+					verb = 'v'
 				}
-				continue
-			}
-			if verb == 'q' || verb == 'd' || verb == 'c' || verb == 'x' {
-				if itf, ok := a.(Iface); ok && itf.T != nil {
-					// fmt.handleMethods: for the verbs valid for strings (%s %q %v %x %X) an operand that is an
-					// error or a Stringer is formatted through its method, whatever its underlying kind
-					if verb == 'q' || verb == 'x' {
-						var txt Str
-						has := false
-						if m := ex.eng.lookupMethod(itf.T, nil, "Error"); m != nil && isErrorMethod(m) {
-							txt, has = ex.call(fr, m, []Val{itf.V}).(Str), true
-						} else if m := ex.eng.lookupMethod(itf.T, nil, "String"); m != nil && isStringMethod(m) {
-							txt, has = ex.call(fr, m, []Val{itf.V}).(Str), true
-						}
-						if has {
-							if verb == 'q' {
-								out = append(out, quoteStr(txt)...)
-							} else {
-								out = append(out, ex.formatTyped(fr, types.Typ[types.String], txt, 'x')...)
-							}
-							continue
-						}
+				if verb == 'T' {
+					if itf, ok := a.(Iface); ok && itf.T != nil {
+						out = append(out, mkStr(itf.T.String())...)
+					} else {
+						out = append(out, mkStr("<nil>")...)
 					}
-					// %q on an error/Stringer quotes its text
-					if verb == 'q' {
-						if _, isStr := itf.V.(Str); !isStr {
-							if _, isSl := itf.V.(SliceV); !isSl {
-								if _, isT := itf.V.(*Term); !isT {
-									out = append(out, quoteStr(ex.formatValue(fr, a, 'v'))...)
-									continue
+					return
+				}
+				if verb == 'q' || verb == 'd' || verb == 'c' || verb == 'x' || verb == 'X' {
+					if itf, ok := a.(Iface); ok && itf.T != nil {
+						// fmt.handleMethods: for the verbs valid for strings (%s %q %v %x %X) an operand that is an
+						// error or a Stringer is formatted through its method, whatever its underlying kind
+						if verb == 'q' || verb == 'x' {
+							var txt Str
+							has := false
+							if m := ex.eng.lookupMethod(itf.T, nil, "Error"); m != nil && isErrorMethod(m) {
+								txt, has = ex.call(fr, m, []Val{itf.V}).(Str), true
+							} else if m := ex.eng.lookupMethod(itf.T, nil, "String"); m != nil && isStringMethod(m) {
+								txt, has = ex.call(fr, m, []Val{itf.V}).(Str), true
+							}
+							if has {
+								if verb == 'q' {
+									out = append(out, quoteStr(txt)...)
+								} else {
+									out = append(out, ex.formatTyped(fr, types.Typ[types.String], txt, 'x')...)
+								}
+								return
+							}
+						}
+						// %q on an error/Stringer quotes its text
+						if verb == 'q' {
+							if _, isStr := itf.V.(Str); !isStr {
+								if _, isSl := itf.V.(SliceV); !isSl {
+									if _, isT := itf.V.(*Term); !isT {
+										out = append(out, quoteStr(ex.formatValue(fr, a, 'v'))...)
+										return
+									}
 								}
 							}
 						}
+						out = append(out, ex.formatTyped(fr, itf.T, itf.V, verb)...)
+						return
 					}
-					out = append(out, ex.formatTyped(fr, itf.T, itf.V, verb)...)
-					continue
 				}
-			}
-			out = append(out, ex.formatValue(fr, a, verb)...)
-		case 'p':
-			// an address: unique per object within a run (the native value is arbitrary; code may only rely on
-			// distinct objects printing differently and one object printing the same every time)
-			var key interface{} = a
-			if itf, ok := a.(Iface); ok {
-				key = itf.V
-			}
-			switch key.(type) {
-			case *Val, *MapV:
+				out = append(out, ex.formatValue(fr, a, verb)...)
+			case 'p':
+				// an address: unique per object within a run (the native value is arbitrary; code may only rely on
+				// distinct objects printing differently and one object printing the same every time)
+				var key interface{} = a
+				if itf, ok := a.(Iface); ok {
+					key = itf.V
+				}
+				switch key.(type) {
+				case *Val, *MapV:
+				default:
+					panic(inconclusive{"Sprintf %p of a non-pointer value"})
+				}
+				if ex.ptrIDs == nil {
+					ex.ptrIDs = map[interface{}]int{}
+				}
+				id, ok := ex.ptrIDs[key]
+				if !ok {
+					id = len(ex.ptrIDs) + 1
+					ex.ptrIDs[key] = id
+				}
+				out = append(out, mkStr(fmt.Sprintf("0xc%09x", id*16))...)
 			default:
-				panic(inconclusive{"Sprintf %p of a non-pointer value"})
+				panic(inconclusive{"Sprintf verb %" + string(verb) + " unsupported"})
 			}
-			if ex.ptrIDs == nil {
-				ex.ptrIDs = map[interface{}]int{}
+		}()
+		// width: pad on the left with blanks, or with zeros for a zero-padded number
+		if n := len(out) - padFrom; width > n {
+			padc := byteConsts[' ']
+			if zeroPad && (verb == 'd' || verb == 'x' || verb == 'X') {
+				padc = byteConsts['0']
 			}
-			id, ok := ex.ptrIDs[key]
-			if !ok {
-				id = len(ex.ptrIDs) + 1
-				ex.ptrIDs[key] = id
+			piece := append(Str(nil), out[padFrom:]...)
+			out = out[:padFrom]
+			for k := 0; k < width-n; k++ {
+				out = append(out, padc)
 			}
-			out = append(out, mkStr(fmt.Sprintf("0xc%09x", id*16))...)
-		default:
-			panic(inconclusive{"Sprintf verb %" + string(verb) + " unsupported"})
+			out = append(out, piece...)
 		}
 	}
 	return out
@@ -742,6 +807,24 @@ func variadic(v Val) []Val {
 
 func inSprintf(ex *Exec, fr *frame, args []Val) Val {
 	return ex.sprintf(fr, args[0].(Str), variadic(args[1]))
+}
+
+// fmt.Fprintf: format with the Sprintf intrinsic, then hand the bytes to the writer's own Write method.
+func inFprintf(ex *Exec, fr *frame, args []Val) Val {
+	itf, ok := args[0].(Iface)
+	if !ok || itf.T == nil {
+		ex.targetPanic("runtime error: invalid memory address or nil pointer dereference")
+	}
+	txt := ex.sprintf(fr, args[1].(Str), variadic(args[2]))
+	m := ex.eng.lookupMethod(itf.T, nil, "Write")
+	if m == nil {
+		panic(inconclusive{"Fprintf: writer without Write method"})
+	}
+	cells := make([]Val, len(txt))
+	for i, b := range txt {
+		cells[i] = b
+	}
+	return ex.call(fr, m, []Val{itf.V, SliceV{A: cells}})
 }
 
 func inSprint(ex *Exec, fr *frame, args []Val) Val {
